@@ -557,12 +557,16 @@ def part_from_matchfile(
         on_off_scale = 1
         # on_off_scale = 1 means duration and beat offset are given in
         # whole notes, else they're given in beats (as in the KAIST data)
+        # (the bar start is computed from onsets rounded to 4 decimals and
+        # can lie just before a time signature change: look the beat type
+        # up at the onset of the note, as for the bar times above)
+        beat_type = beat_type_map_from_beats(note.OnsetInBeats)
         if not match_offset_duration_in_whole:
-            on_off_scale = beat_type_map(bar_start)
+            on_off_scale = beat_type
 
         # offset within bar in quarter units adjusted for different
-        # time signatures -> 4 / beat_type_map(bar_start)
-        bar_offset = (note.Beat - 1) * 4 / beat_type_map(bar_start)
+        # time signatures -> 4 / beat_type
+        bar_offset = (note.Beat - 1) * 4 / beat_type
 
         # offset within beat in quarter units adjusted for different
         # time signatures -> 4 / beat_type_map(bar_start)
@@ -581,7 +585,7 @@ def part_from_matchfile(
             warnings.warn(
                 "Calculated `onset_divs` does not match `OnsetInBeats` " "information!."
             )
-            onset_divs = onset_in_divs[ni]
+            onset_divs = int(round(onset_in_divs[ni]))
         assert onset_divs >= 0
         assert np.isclose(onset_divs, onset_in_divs[ni], atol=divs * 0.01)
         is_tied = False
